@@ -178,6 +178,29 @@ def build(inp) -> Case:
         pre.append(Issue("PROPFAIL", "shape", f"shape {ci.shape} for metric shape {yshape}", "bootci/shape"))
         return Case(ID, inp, [], lambda outs: [], (method,), 0, pre)
     cif = ci.reshape(ncomp, 2)
+    # the same call under the caller's strict floating-point error state (np.errstate(invalid/divide='raise') is what a
+    # numerically careful caller runs with): the documented limits, not a FloatingPointError from a quotient that is
+    # computed only to be discarded
+    # (claimed for metrics every component of which has a finite replicate: for an all-NaN component the unchanged code
+    # computes the fraction 0/0 on the way to its NaN limits, which the strict state turns into an exception)
+    some_finite = bool(np.all(np.any(~np.isnan(np.asarray(theta, dtype=float).reshape(n, -1)), axis=0)))
+    with np.errstate(invalid="raise", divide="raise"):
+        r_strict = run(theta, th, alpha) if some_finite else r
+    if r_strict[0] == "exc":
+        pre.append(Issue("PROPFAIL", "raises", f"bootstrap_ci[{method}] under np.errstate(invalid='raise', divide='raise') raised "
+                         f"{r_strict[1]}: {r_strict[2]}; without it the call returns {ci.reshape(-1).tolist()[:6]}", f"bootci/raises/strict-errstate/{method}"))
+    elif not np.array_equal(np.asarray(r_strict[1]), ci, equal_nan=True):
+        pre.append(Issue("PROPFAIL", "ambient", f"bootstrap_ci[{method}] depends on the ambient error state", "bootci/ambient"))
+    # metrics without components (an empty threshold array): shape Y + (2,) resp. Y + alpha_shape + (2,), no exception
+    for ys_ in ([0], [0, 3], [2, 0]):
+        th0 = np.zeros(ys_)
+        for al_ in ((alpha,) if method != "quantile" else (alpha, [alpha, min(0.9, alpha * 2)])):
+            r0 = run(np.zeros([n] + ys_), th0, al_)
+            want = ys_ + ([] if np.ndim(al_) == 0 else [len(al_)]) + [2]
+            if r0[0] == "exc" or list(np.asarray(r0[1]).shape) != want:
+                pre.append(Issue("PROPFAIL", "shape", f"bootstrap_ci[{method}] on {n} replicates of an EMPTY metric of shape {tuple(ys_)}, alpha "
+                                 f"{al_}: " + (f"raised {r0[1]}: {r0[2]}" if r0[0] == "exc" else f"shape {np.asarray(r0[1]).shape}") +
+                                 f", expected shape {tuple(want)}", f"bootci/shape/empty-metric/{method}"))
     scale = max([abs(x) for c in cols for x in c if not math.isnan(x)] + [abs(float(t)) for t in inp["th"]] + [0.0]) or 1.0
     tol = 1e-9 * scale
 
